@@ -354,3 +354,12 @@ claim(
     "abstract interpretation of the exporter and the importer on abstract object graphs; structural equality of import(export(x)) and x; exhaustiveness over the dtype table and the validator's class table",
     "DESIGN.md §5 C31",
 )
+
+claim(
+    "C30",
+    "other",
+    "The statement quantifies over a finite index domain and arbitrary values; the values are kept symbolic (the record of step t is a free symbol, the buffers start with arbitrary content) and the index domain is covered exhaustively (quick: total steps <= 9, k <= 4; thorough: total steps <= 40, k <= 8; every start step). For each triple the repo's Recorder with LinearReconstructEveryK is initialised by its own init_shapes (interpreted), every step is compressed in order, and for every t >= start decompress(t) equals, as a rational expression, v_t at saved steps and v_p + (t-p)/(q-p)(v_q - v_p) between the enclosing saved steps otherwise; unsaved steps leave every slot untouched; the same through a DtypeConversion + filter pipeline; DtypeConversion casts to its dtype going in (excluded keys untouched) and back to each key's recorded input dtype coming out. Exactness of a particular widening cast is a property of the float formats and is not decided. Two genuine defects found by this rule were fixed (start_recording_after > 0; total steps <= k).",
+    TB + "; integer table code interpreted on concrete index arrays, recorded values symbolic; lax.cond on a decided predicate takes that branch",
+    "abstract interpretation of the recorder pipeline with symbolic record values, exhaustive over the property's finite index domain; rational identity against the interpolation formula",
+    "DESIGN.md §6 (moved from not-applicable) / §7",
+)
